@@ -883,6 +883,24 @@ def rule_d1(a, prov, writes):
         ck.expect(r0 is not None and isinstance(r0, ast.Name) and r0.id in cs.params, R, cs.qual,
                   'write_request(%s)' % (_utxt(r0) if r0 is not None else ''),
                   'the request sent is not the one given to the session', cs.loc(c))
+    # the flags that switch are true of the connection handed out: the TLS connection created inside a CONNECT tunnel is a new
+    # object (start_tls), whose `tunneled` flag starts False - it must be set before that object is returned
+    for pf in [f for f in repo.funcs.values() if f.module.name == 'wpull.proxy.client' and any(U.attr_name(c) == 'start_tls' for c in U.calls(f.node))]:
+        cfg = a.ctx.cfg(pf)
+        for n in cfg.stmt_nodes():
+            st = n.stmt
+            if isinstance(st, ast.Assign) and len(st.targets) == 1 and isinstance(st.targets[0], ast.Name) and any(
+                    U.attr_name(c) == 'start_tls' for c in F.node_calls(n)):
+                nm = st.targets[0].id
+                rets = [m for m in cfg.nodes if m.kind == 'return' and m.stmt.value is not None and norm_text(m.stmt.value) == nm]
+                marks = [m for m in cfg.stmt_nodes() if isinstance(m.stmt, ast.Assign) and any(norm_text(t) == '%s.tunneled' % nm for t in m.stmt.targets)
+                         and isinstance(m.stmt.value, ast.Constant) and m.stmt.value.value is True]
+                p = None
+                for r_ in rets:
+                    p = p or cfg.find_path(n, lambda m, r_=r_: m is r_, edge_ok=F.normal, stop=lambda m: m in marks)
+                ck.expect(bool(rets) and p is None, R, pf.qual, '%s = start_tls(...); %s.tunneled = True before it is returned' % (nm, nm),
+                          'the TLS connection created inside the proxy tunnel is handed out without `tunneled = True`: the session then sends '
+                          'the absolute https:// URL as request target to the origin server', pf.loc(st))
 
 
 def _d1_record_discipline(a):
